@@ -160,7 +160,7 @@ Section Engine.
     end.
 
   (* CopyNonNilDataFromItemToItem(source, destination) *)
-  Fixpoint copy_nonnil (src dst : item) : item :=
+  Fixpoint copy_nonnil (src dst : item) {struct dst} : item :=
     match dst with
     | [] => []
     | d :: dr =>
@@ -266,46 +266,47 @@ Section Engine.
         end
     end.
 
-  (* UpdateList[T] *)
+  (* UpdateList[T], first part: "process delete filter (with selectors and elements)" *)
+  Definition after_delete (remote : bool) (existing : list item) (fd : option flt) : res (list item * bool) :=
+    match filter_data fd with
+    | Some f =>
+        match delete_filtered remote f existing with
+        | Panic => Panic
+        | Ok (d, true) => Ok (d, true)
+        | Ok (_, false) => Ok (existing, false)   (* the result is dropped; see FunctionStore.v on what is observable *)
+        end
+    | None => Ok (existing, true)
+    end.
+
+  (* UpdateList[T], second part: selector update / identifier-less copy to all / Merge + SortData *)
+  Definition apply_new (remote : bool) (ex new : list item) (fp : option flt) : res (list item * bool) :=
+    match filter_data fp with
+    | Some f =>
+        match new with
+        | [] => Panic                            (* &newData[0] *)
+        | n0 :: _ =>
+            match f_sel f with
+            | None => Ok (ex, true)              (* copyToSelectedData without selector: nothing happens *)
+            | Some sel => copy_to_selected remote sel n0 ex
+            end
+        end
+    | None =>
+        match new with
+        | n0 :: _ =>
+            if negb (has_identifiers n0) then Ok (copy_to_all remote n0 ex)
+            else let '(d, ok) := merge remote ex new in Ok (sort_data d, ok)
+        | [] => let '(d, ok) := merge remote ex new in Ok (sort_data d, ok)
+        end
+    end.
+
   Definition update_list (remote : bool) (existing new : list item) (fp fd : option flt)
     : res (list item * bool) :=
-    let after_delete :=
-      match filter_data fd with
-      | Some f =>
-          match delete_filtered remote f existing with
-          | Panic => Panic
-          | Ok (d, true) => Ok (d, true)
-          | Ok (_, false) => Ok (existing, false)   (* the result is dropped; see FunctionStore.v on what is observable *)
-          end
-      | None => Ok (existing, true)
-      end in
-    match after_delete with
+    match after_delete remote existing fd with
     | Panic => Panic
     | Ok (ex, ok0) =>
-        match filter_data fp with
-        | Some f =>
-            match new with
-            | [] => Panic                            (* &newData[0] *)
-            | n0 :: _ =>
-                match f_sel f with
-                | None => Ok (ex, ok0)               (* copyToSelectedData without selector: nothing happens *)
-                | Some sel =>
-                    match copy_to_selected remote sel n0 ex with
-                    | Panic => Panic
-                    | Ok (d, ok) => Ok (d, ok0 && ok)
-                    end
-                end
-            end
-        | None =>
-            match new with
-            | n0 :: _ =>
-                if negb (has_identifiers n0) then
-                  let '(d, ok) := copy_to_all remote n0 ex in Ok (d, ok0 && ok)
-                else
-                  let '(d, ok) := merge remote ex new in Ok (sort_data d, ok0 && ok)
-            | [] =>
-                let '(d, ok) := merge remote ex new in Ok (sort_data d, ok0 && ok)
-            end
+        match apply_new remote ex new fp with
+        | Panic => Panic
+        | Ok (d, ok) => Ok (d, ok0 && ok)
         end
     end.
 End Engine.
